@@ -1,9 +1,16 @@
 package main
 
 import (
+	"crypto/sha1"
+	"encoding/json"
 	"fmt"
 	"go/types"
 	"os"
+	"path/filepath"
+	"sort"
+	"strconv"
+	"strings"
+	"sync"
 	"time"
 
 	"golang.org/x/tools/go/packages"
@@ -11,66 +18,549 @@ import (
 	"golang.org/x/tools/go/ssa/ssautil"
 )
 
-func main() {
-	pkgPath := os.Args[1]
-	src, _ := os.ReadFile(os.Args[2])
-	virt := os.Args[3]
-	t0 := time.Now()
-	cfg := &packages.Config{Mode: packages.LoadAllSyntax, Dir: "/repo", Overlay: map[string][]byte{virt: src},
-		Env: append(os.Environ(), "GOTOOLCHAIN=local", "GOFLAGS=-mod=mod", "GOPROXY=off", "GOSUMDB=off")}
-	pkgs, err := packages.Load(cfg, pkgPath)
-	if err != nil {
-		panic(err)
+func verifRoot() string {
+	if r := os.Getenv("VERIF_ROOT"); r != "" {
+		return r
 	}
-	if packages.PrintErrors(pkgs) > 0 {
-		os.Exit(1)
+	return "/verif"
+}
+
+func main() {
+	if len(os.Args) < 3 {
+		fmt.Fprintln(os.Stderr, "usage: symgo check <ID> [--tier quick|thorough] [--entry fn] | symgo replay <file>")
+		os.Exit(2)
+	}
+	switch os.Args[1] {
+	case "check":
+		os.Exit(cmdCheck(os.Args[2], os.Args[3:]))
+	case "replay":
+		os.Exit(cmdReplay(os.Args[2]))
+	}
+	fmt.Fprintln(os.Stderr, "unknown command", os.Args[1])
+	os.Exit(2)
+}
+
+type EntryResult struct {
+	Cfg         EntryCfg
+	Eng         *Engine
+	Wall        time.Duration
+	Crash       string
+	Queries     [4]int // q, sat, unsat, unknown
+	SolverTime  time.Duration
+	SolverErrs  int
+}
+
+func loadProgram(d *Descriptor, scratch string) (*ssa.Program, *ssa.Package, error) {
+	ov, _, err := d.overlayFiles(scratch, false)
+	if err != nil {
+		return nil, nil, err
+	}
+	overlay := map[string][]byte{}
+	for virt, real := range ov {
+		b, err := os.ReadFile(real)
+		if err != nil {
+			return nil, nil, err
+		}
+		overlay[virt] = b
+	}
+	cfg := &packages.Config{Mode: packages.LoadAllSyntax, Dir: repoRoot, Overlay: overlay, Env: goEnv()}
+	pat := "./" + d.Dir
+	pkgs, err := packages.Load(cfg, pat)
+	if err != nil {
+		return nil, nil, err
+	}
+	nerr := 0
+	var firstErr string
+	packages.Visit(pkgs, nil, func(p *packages.Package) {
+		for _, e := range p.Errors {
+			if nerr == 0 {
+				firstErr = e.Error()
+			}
+			nerr++
+		}
+	})
+	if nerr > 0 {
+		return nil, nil, fmt.Errorf("harness does not load against /repo (%d errors), first: %s", nerr, firstErr)
 	}
 	prog, spkgs := ssautil.AllPackages(pkgs, ssa.InstantiateGenerics)
 	prog.Build()
-	fmt.Println("load+build", time.Since(t0).Round(time.Millisecond))
-	for _, name := range os.Args[4:] {
-		f := spkgs[0].Func(name)
-		if f == nil {
-			fmt.Println("no func", name)
-			continue
-		}
-		e := &Engine{prog: prog, sol: NewSolver("z3", "-in"), globals: map[*ssa.Global]int{}, inited: map[*ssa.Package]bool{},
-			pureMemo: map[*ssa.Function]int{}, funcs: map[string]bool{}, reach: map[string]bool{},
-			allocMax: envInt("ALLOCMAX", 40), unwind: 300, maxSwitch: 6, schedAll: os.Getenv("SCHED_ALL") != "", noMerge: os.Getenv("NOMERGE") != ""}
-		et := types.NewNamed(types.NewTypeName(0, nil, "modelError", nil), types.NewPointer(types.NewStruct(nil, nil)), nil)
-		et.AddMethod(types.NewFunc(0, nil, "Error", types.NewSignatureType(types.NewVar(0, nil, "", et), nil, nil, nil, types.NewTuple(types.NewVar(0, nil, "", types.Typ[types.String])), false)))
-		e.errType = et
-		t1 := time.Now()
-		st := &State{heap: map[int]*Obj{}, locks: map[string]*MutexModel{}, wgs: map[string]int{}, decided: map[string]bool{}}
-		st.gs = []*G{{id: 0, status: gRunnable, name: "main"}}
-		st = e.runInit(st, spkgs[0])
-		e.instrs = 0
-		e.pushFrame(st, st.gs[0], f, nil, nil, nil)
-		e.drive([]*State{st}, nil)
-		fmt.Printf("== %s: paths=%d instrs=%d forks=%d merges=%d queries=%d (sat %d unsat %d unk %d) solver=%v wall=%v proved=%d funcs=%d reach=%v unsupported=%d bigalloc=%d approxEq=%d deadlocks=%d\n",
-			name, e.paths, e.instrs, e.forks, e.merges, e.sol.Q, e.sol.Sat, e.sol.Unsat, e.sol.Unk, e.sol.T.Round(time.Millisecond), time.Since(t1).Round(time.Millisecond),
-			e.proved, len(e.funcs), e.reach, e.unsupported, e.bigAlloc, e.approxEq, e.deadlocks)
-		seen := map[string]int{}
-		for _, v := range e.violations {
-			k := v
-			if len(k) > 160 {
-				k = k[:160]
-			}
-			seen[k]++
-			if seen[k] <= 2 {
-				fmt.Println("   !", v)
-			}
-		}
-		e.sol.in.Close()
-		e.sol.cmd.Wait()
+	if len(spkgs) == 0 || spkgs[0] == nil {
+		return nil, nil, fmt.Errorf("no SSA package for %s", pat)
 	}
+	return prog, spkgs[0], nil
 }
 
-func envInt(k string, d int) int {
-	if v := os.Getenv(k); v != "" {
-		n := 0
-		fmt.Sscanf(v, "%d", &n)
-		return n
+func newEngine(prog *ssa.Program, cfg EntryCfg, kf []KnownFinding) *Engine {
+	to := cfg.TimeoutS
+	if to == 0 {
+		to = 20
 	}
-	return d
+	e := &Engine{prog: prog, sol: NewSolver(to*1000, solverBin(), "-in"), globals: map[*ssa.Global]int{}, inited: map[*ssa.Package]bool{},
+		pureMemo: map[*ssa.Function]int{}, funcs: map[string]bool{}, reach: map[string]bool{}, cfg: cfg, kf: kf,
+		aborts: map[string]int{}, viol: map[string]*Violation{}, known: map[string]*Violation{}, ndVars: map[string]*Term{}, asserted: map[string]int{}}
+	e.allocMax = cfg.AllocMax
+	if e.allocMax == 0 {
+		e.allocMax = 40
+	}
+	e.unwind = cfg.Unwind
+	if e.unwind == 0 {
+		e.unwind = 300
+	}
+	e.maxSwitch = cfg.MaxSwitch
+	if e.maxSwitch == 0 {
+		e.maxSwitch = 6
+	}
+	e.schedAll = cfg.Sched == "all"
+	e.noMerge = cfg.NoMerge
+	et := types.NewNamed(types.NewTypeName(0, nil, "modelError", nil), types.NewPointer(types.NewStruct(nil, nil)), nil)
+	et.AddMethod(types.NewFunc(0, nil, "Error", types.NewSignatureType(types.NewVar(0, nil, "", et), nil, nil, nil, types.NewTuple(types.NewVar(0, nil, "", types.Typ[types.String])), false)))
+	e.errType = et
+	return e
+}
+
+func solverBin() string {
+	if b := os.Getenv("SYMGO_SOLVER"); b != "" {
+		return b
+	}
+	return "z3"
+}
+
+func runEntry(prog *ssa.Program, pkg *ssa.Package, cfg EntryCfg, kf []KnownFinding) (res *EntryResult) {
+	res = &EntryResult{Cfg: cfg}
+	t0 := time.Now()
+	e := newEngine(prog, cfg, kf)
+	res.Eng = e
+	defer func() {
+		if r := recover(); r != nil {
+			res.Crash = fmt.Sprint(r)
+			if os.Getenv("SYMGO_DEBUG") != "" {
+				panic(r)
+			}
+		}
+		res.Wall = time.Since(t0)
+		res.Queries = [4]int{e.sol.Q, e.sol.Sat, e.sol.Unsat, e.sol.Unk}
+		res.SolverTime = e.sol.T
+		res.SolverErrs = e.sol.Errs
+		e.sol.Close()
+	}()
+	f := pkg.Func(cfg.Fn)
+	if f == nil {
+		res.Crash = "no such harness function " + cfg.Fn
+		return
+	}
+	st := &State{heap: map[int]*Obj{}, locks: map[string]*MutexModel{}, wgs: map[string]int{}, decided: map[string]bool{}}
+	st.gs = []*G{{id: 0, status: gRunnable, name: "main"}}
+	st = e.runInit(st, pkg)
+	e.instrs = 0
+	e.aborts = map[string]int{}
+	e.unsupported = 0
+	e.pushFrame(st, st.gs[0], f, nil, nil, nil)
+	e.drive([]*State{st}, nil)
+	return
+}
+
+type vecRef struct {
+	kind  string // witness | violation | known
+	entry *EntryResult
+	w     *Witness
+	v     *Violation
+}
+
+func cmdCheck(id string, args []string) int {
+	t0 := time.Now()
+	tier := os.Getenv("VERIF_TIER")
+	only := ""
+	for i := 0; i < len(args); i++ {
+		switch args[i] {
+		case "--tier":
+			i++
+			tier = args[i]
+		case "--entry":
+			i++
+			only = args[i]
+		}
+	}
+	if tier == "" {
+		tier = "quick"
+	}
+	seed, _ := strconv.Atoi(os.Getenv("VERIF_SEED"))
+	root := verifRoot()
+	evPath := filepath.Join(root, "evidence", id+".json")
+	os.Remove(evPath)
+	d, err := loadDescriptor(root, id)
+	if err != nil {
+		fmt.Println("INCONCLUSIVE:", err)
+		return 2
+	}
+	kf, err := loadKnownFindings(root, id)
+	if err != nil {
+		fmt.Println("INCONCLUSIVE:", err)
+		return 2
+	}
+	scratch, err := os.MkdirTemp("", "symgo-")
+	if err != nil {
+		fmt.Println("INCONCLUSIVE:", err)
+		return 2
+	}
+	defer os.RemoveAll(scratch)
+	prog, pkg, err := loadProgram(d, scratch)
+	if err != nil {
+		fmt.Println("INCONCLUSIVE:", err)
+		return 2
+	}
+	loadT := time.Since(t0)
+	var entries []EntryCfg
+	for _, e := range d.Entries {
+		if inTier(e, tier) && (only == "" || e.Fn == only) {
+			entries = append(entries, e)
+		}
+	}
+	if len(entries) == 0 {
+		fmt.Println("INCONCLUSIVE: no entries for tier", tier)
+		return 2
+	}
+	workers := 16
+	if w, _ := strconv.Atoi(os.Getenv("SYMGO_WORKERS")); w > 0 {
+		workers = w
+	}
+	results := make([]*EntryResult, len(entries))
+	sem := make(chan struct{}, workers)
+	var wg sync.WaitGroup
+	for i := range entries {
+		wg.Add(1)
+		go func(i int) {
+			defer wg.Done()
+			sem <- struct{}{}
+			defer func() { <-sem }()
+			results[i] = runEntry(prog, pkg, entries[i], kf)
+		}(i)
+	}
+	wg.Wait()
+
+	// ---------- native validation / confirmation
+	var vecs []NativeVector
+	var refs []vecRef
+	for _, r := range results {
+		if r.Cfg.NoNative || r.Eng == nil {
+			continue
+		}
+		for _, w := range r.Eng.witnesses {
+			vecs = append(vecs, NativeVector{r.Cfg.Fn, w.ND, r.Cfg.Params})
+			refs = append(refs, vecRef{"witness", r, w, nil})
+		}
+		for _, v := range sortedViol(r.Eng.viol) {
+			if v.Status == "sat" {
+				vecs = append(vecs, NativeVector{r.Cfg.Fn, v.ND, r.Cfg.Params})
+				refs = append(refs, vecRef{"violation", r, nil, v})
+			}
+		}
+		for _, v := range sortedViol(r.Eng.known) {
+			vecs = append(vecs, NativeVector{r.Cfg.Fn, v.ND, r.Cfg.Params})
+			refs = append(refs, vecRef{"known", r, nil, v})
+		}
+	}
+	var inconclusive []string
+	validated, mismatches := 0, 0
+	confirmed := map[*Violation]bool{}
+	nativeNote := ""
+	if len(vecs) > 0 && os.Getenv("SYMGO_NO_NATIVE") == "" {
+		nres, out, err := runNative(d, vecs)
+		if err != nil {
+			inconclusive = append(inconclusive, "native validation run failed: "+err.Error())
+			nativeNote = tail(out, 400)
+		} else {
+			for i, nr := range nres {
+				ref := refs[i]
+				switch ref.kind {
+				case "witness":
+					ok := nr.Panic == "" && !nr.AssumeFailed && eqU64(nr.Obs, ref.w.Obs) && eqSet(nr.Fails, ref.w.Fails)
+					if ok {
+						validated++
+					} else {
+						mismatches++
+						inconclusive = append(inconclusive, fmt.Sprintf("encoder validation mismatch in %s: nd=%v engine(obs=%v fails=%v) native(obs=%v fails=%v panic=%q assumeFailed=%v)",
+							ref.entry.Cfg.Fn, ref.w.ND, ref.w.Obs, ref.w.Fails, nr.Obs, nr.Fails, nr.Panic, nr.AssumeFailed))
+					}
+				default:
+					if nativeConfirms(ref.v, nr) {
+						confirmed[ref.v] = true
+						validated++
+					}
+				}
+			}
+		}
+	}
+
+	// ---------- verdict
+	exit := 0
+	var violLines, knownLines, notes []string
+	nViol := 0
+	seenKnown := map[string]bool{}
+	for _, r := range results {
+		fn := r.Cfg.Fn
+		if r.Crash != "" {
+			inconclusive = append(inconclusive, fmt.Sprintf("%s: engine stopped: %s", fn, r.Crash))
+			continue
+		}
+		e := r.Eng
+		twinHit := false
+		for _, v := range sortedViol(e.viol) {
+			if r.Cfg.Twin != "" && v.Label == r.Cfg.Twin {
+				twinHit = v.Status == "sat"
+				continue
+			}
+			if v.Status != "sat" {
+				inconclusive = append(inconclusive, fmt.Sprintf("%s: solver answered unknown for %s %q", fn, v.Kind, v.Label))
+				continue
+			}
+			if !r.Cfg.NoNative && os.Getenv("SYMGO_NO_NATIVE") == "" && !confirmed[v] {
+				inconclusive = append(inconclusive, fmt.Sprintf("%s: counterexample for %s %q did not reproduce natively (nd=%v) — encoding or model suspect", fn, v.Kind, v.Label, v.ND))
+				continue
+			}
+			p := writeReplay(root, d, r.Cfg, tier, v)
+			violLines = append(violLines, fmt.Sprintf("VIOLATION property=%s replay=%s", id, p))
+			notes = append(notes, fmt.Sprintf("  %s: %s %q in %s (nd=%v, %d paths)", fn, v.Kind, v.Label, v.Fn, v.ND, v.Count))
+			nViol++
+		}
+		if r.Cfg.Twin != "" && !twinHit {
+			inconclusive = append(inconclusive, fmt.Sprintf("%s: vacuity twin label %q was not reported violated", fn, r.Cfg.Twin))
+		}
+		for _, l := range r.Cfg.Reach {
+			if !e.reach[l] {
+				inconclusive = append(inconclusive, fmt.Sprintf("%s: reachability marker %q not reached (vacuous harness)", fn, l))
+			}
+		}
+		for _, v := range sortedViol(e.known) {
+			if !r.Cfg.NoNative && os.Getenv("SYMGO_NO_NATIVE") == "" && !confirmed[v] {
+				inconclusive = append(inconclusive, fmt.Sprintf("%s: known finding %s no longer reproduces natively (nd=%v)", fn, v.Finding, v.ND))
+				continue
+			}
+			if !seenKnown[v.Finding] {
+				seenKnown[v.Finding] = true
+				knownLines = append(knownLines, fmt.Sprintf("KNOWN-FINDING: property=%s %s %s", id, v.Finding, findingText(kf, v.Finding)))
+			}
+		}
+		if e.paths == 0 && r.Cfg.Twin == "" {
+			inconclusive = append(inconclusive, fmt.Sprintf("%s: no path completed", fn))
+		}
+		if e.unwindHits > 0 {
+			inconclusive = append(inconclusive, fmt.Sprintf("%s: unwinding bound %d hit %d times (bound too small)", fn, e.unwind, e.unwindHits))
+		}
+		if e.stopped {
+			inconclusive = append(inconclusive, fmt.Sprintf("%s: path budget exhausted", fn))
+		}
+		if r.SolverErrs > 0 {
+			inconclusive = append(inconclusive, fmt.Sprintf("%s: %d solver errors", fn, r.SolverErrs))
+		}
+		for why, n := range e.aborts {
+			allowed := false
+			for _, a := range d.AllowAborts {
+				if strings.Contains(why, a) {
+					allowed = true
+				}
+			}
+			if strings.HasPrefix(why, "unwind bound") {
+				allowed = true // already reported above
+			}
+			if !allowed {
+				inconclusive = append(inconclusive, fmt.Sprintf("%s: %d paths aborted as unsupported: %s", fn, n, why))
+			}
+		}
+	}
+	for _, k := range kf {
+		if !k.Fixed && !seenKnown[k.ID] {
+			applicable := false
+			for _, r := range results {
+				if k.Harness == "" || k.Harness == r.Cfg.Fn {
+					applicable = true
+				}
+			}
+			if applicable {
+				notes = append(notes, fmt.Sprintf("  note: listed finding %s was not reproduced in this run", k.ID))
+			}
+		}
+	}
+	sort.Strings(inconclusive)
+	for _, l := range knownLines {
+		fmt.Println(l)
+	}
+	for _, l := range violLines {
+		fmt.Println(l)
+	}
+	for _, l := range notes {
+		fmt.Println(l)
+	}
+	if nViol > 0 {
+		exit = 1
+	} else if len(inconclusive) > 0 {
+		exit = 2
+	}
+	for _, l := range inconclusive {
+		fmt.Println("INCONCLUSIVE:", l)
+	}
+	if nativeNote != "" {
+		fmt.Println(nativeNote)
+	}
+	wall := time.Since(t0)
+	summarize(results, loadT, wall)
+	if exit != 2 {
+		if err := writeEvidence(evPath, d, tier, seed, results, kf, validated, mismatches, nViol, knownLines, wall, loadT); err != nil {
+			fmt.Println("INCONCLUSIVE: cannot write evidence:", err)
+			return 2
+		}
+	}
+	if exit == 0 {
+		fmt.Printf("OK property=%s tier=%s: held on everything explored (%d entries, %.1fs)\n", id, tier, len(results), wall.Seconds())
+	}
+	return exit
+}
+
+func findingText(kf []KnownFinding, id string) string {
+	for _, k := range kf {
+		if k.ID == id {
+			return k.Text
+		}
+	}
+	return ""
+}
+
+func sortedViol(m map[string]*Violation) []*Violation {
+	keys := make([]string, 0, len(m))
+	for k := range m {
+		keys = append(keys, k)
+	}
+	sort.Strings(keys)
+	out := make([]*Violation, 0, len(m))
+	for _, k := range keys {
+		out = append(out, m[k])
+	}
+	return out
+}
+
+func eqU64(a, b []uint64) bool {
+	if len(a) != len(b) {
+		return false
+	}
+	for i := range a {
+		if a[i] != b[i] {
+			return false
+		}
+	}
+	return true
+}
+
+func eqSet(a, b []string) bool {
+	ma, mb := map[string]bool{}, map[string]bool{}
+	for _, x := range a {
+		ma[x] = true
+	}
+	for _, x := range b {
+		mb[x] = true
+	}
+	if len(ma) != len(mb) {
+		return false
+	}
+	for x := range ma {
+		if !mb[x] {
+			return false
+		}
+	}
+	return true
+}
+
+// nativeConfirms: does the native run of the counterexample show the predicted failure?
+func nativeConfirms(v *Violation, nr NativeResult) bool {
+	if nr.AssumeFailed {
+		return false
+	}
+	switch v.Kind {
+	case "assert":
+		for _, f := range nr.Fails {
+			if f == v.Label {
+				return true
+			}
+		}
+		return false
+	case "panic":
+		return nr.Panic != ""
+	}
+	return false
+}
+
+type ReplayFile struct {
+	Property string         `json:"property"`
+	Entry    string         `json:"entry"`
+	Tier     string         `json:"tier"`
+	Params   map[string]int `json:"params"`
+	Kind     string         `json:"kind"`
+	Label    string         `json:"label"`
+	Fn       string         `json:"fn"`
+	ND       []uint64       `json:"nd"`
+	Widths   []int          `json:"widths"`
+	Trace    []string       `json:"trace,omitempty"`
+	NoNative bool           `json:"no_native"`
+}
+
+func writeReplay(root string, d *Descriptor, cfg EntryCfg, tier string, v *Violation) string {
+	rf := ReplayFile{d.Property, cfg.Fn, tier, cfg.Params, v.Kind, v.Label, v.Fn, v.ND, v.Widths, v.Trace, cfg.NoNative}
+	b, _ := json.MarshalIndent(rf, "", " ")
+	h := sha1.Sum(b)
+	dir := filepath.Join(root, "replays", d.Property)
+	os.MkdirAll(dir, 0755)
+	p := filepath.Join(dir, fmt.Sprintf("%x.json", h[:6]))
+	os.WriteFile(p, b, 0644)
+	return p
+}
+
+func cmdReplay(path string) int {
+	b, err := os.ReadFile(path)
+	if err != nil {
+		fmt.Println("cannot read replay file:", err)
+		return 2
+	}
+	var rf ReplayFile
+	if err := json.Unmarshal(b, &rf); err != nil {
+		fmt.Println("bad replay file:", err)
+		return 2
+	}
+	d, err := loadDescriptor(verifRoot(), rf.Property)
+	if err != nil {
+		fmt.Println(err)
+		return 2
+	}
+	if rf.NoNative {
+		// schedule-dependent harness: re-run the entry symbolically restricted to the recorded input
+		fmt.Println("replay of a schedule-dependent harness: re-running the check entry", rf.Entry)
+		return cmdCheck(rf.Property, []string{"--tier", rf.Tier, "--entry", rf.Entry})
+	}
+	res, out, err := runNative(d, []NativeVector{{rf.Entry, rf.ND, rf.Params}})
+	if err != nil {
+		fmt.Println("native replay failed:", err)
+		fmt.Println(tail(out, 2000))
+		return 2
+	}
+	v := &Violation{Kind: rf.Kind, Label: rf.Label}
+	fmt.Printf("native run of %s on nd=%v: fails=%v panic=%q assumeFailed=%v\n", rf.Entry, rf.ND, res[0].Fails, res[0].Panic, res[0].AssumeFailed)
+	if res[0].Panic != "" {
+		fmt.Println(tail(res[0].Stack, 1500))
+	}
+	if nativeConfirms(v, res[0]) {
+		fmt.Printf("REPRODUCED: %s %q\n", rf.Kind, rf.Label)
+		return 1
+	}
+	fmt.Println("not reproduced")
+	return 0
+}
+
+func summarize(results []*EntryResult, loadT, wall time.Duration) {
+	for _, r := range results {
+		if r.Eng == nil {
+			continue
+		}
+		e := r.Eng
+		fmt.Printf("  [%s] paths=%d instrs=%d forks=%d merges=%d vcs=%d proved=%d queries=%d (sat %d unsat %d unk %d) solver=%v wall=%v funcs=%d aborted=%d bigalloc=%d witnesses=%d\n",
+			r.Cfg.Fn, e.paths, e.instrs, e.forks, e.merges, e.obligations, e.proved, r.Queries[0], r.Queries[1], r.Queries[2], r.Queries[3],
+			r.SolverTime.Round(time.Millisecond), r.Wall.Round(time.Millisecond), len(e.funcs), e.unsupported, e.bigAlloc, len(e.witnesses))
+	}
+	fmt.Printf("  load+ssa %v, total %v\n", loadT.Round(time.Millisecond), wall.Round(time.Millisecond))
 }
